@@ -551,6 +551,176 @@ def _strings_of(ix: Any, g: Any, e: ast.AST, lc: Locals, depth: int = 0) -> "lis
     return None
 
 
+# ---- R18.6: every property held by a model has had its identifier compared with the others' ------------------------------------
+def _own(fn: ast.AST) -> "list[ast.AST]":
+    """nodes of fn outside nested functions / classes"""
+    out: list[ast.AST] = []
+    stack = list(ast.iter_child_nodes(fn))
+    while stack:
+        n = stack.pop()
+        out.append(n)
+        if not isinstance(n, (ast.FunctionDef, ast.AsyncFunctionDef, ast.Lambda, ast.ClassDef)):
+            stack.extend(ast.iter_child_nodes(n))
+    return out
+
+
+def _params(g: Any) -> "list[str]":
+    a = g.node.args
+    return [x.arg for x in [*a.posonlyargs, *a.args, *a.kwonlyargs]]
+
+
+def identifier_uniqueness(rep: Report, ctx: Any, rid: str) -> int:
+    """Two spellings that are normalised to one identifier (`fooBar` / `foo_bar`) are kept apart by a comparison of the identifiers of
+    the properties of one model; a model in which it was skipped for one property declares an attribute twice, so whether the class
+    works depends on how the document spells its names.  Necessary, whatever the shape of the code: every statement that puts a
+    property into the mapping the model's properties are collected in comes, on every path, after the identifier (`python_name`) of
+    THAT property - the object stored, not the definition it was merged from - was compared with the identifier of each property
+    the mapping holds (a loop / comprehension over the mapping, in the storing function, in a helper it hands property and mapping
+    to, or before each call of the storing function).  -> number of stores judged"""
+    from ..astutil import anon, cfg_of, local_names, short, stmt_of, where
+
+    ix = ctx.py
+    pp = ix.func("model_property._process_properties")
+    reg = region(ix, pp)
+    funcs: list[Any] = list(reg)
+    for h in ix.all_functions:
+        q = h.parent
+        while q is not None:
+            if any(q is g for g in reg) and not any(h is g for g in funcs):
+                funcs.append(h)
+            q = q.parent
+    cfgs: dict = {}
+
+    def inside(g: Any) -> bool:
+        q = g
+        while q is not None:
+            if q is pp:
+                return True
+            q = q.parent
+        return False
+
+    def calls_to(h: Any) -> "list[tuple[Any, ast.Call]]":
+        return [(g, c) for g in funcs if g is not h for c in _own(g.node) if isinstance(c, ast.Call)
+                and norm(c.func).rsplit(".", 1)[-1] == h.name]
+
+    # the mapping, by role: a dict that _process_properties creates empty and into which properties are stored by subscript (under
+    # whatever name: a closure reads it by the same name, a helper by the parameter it is handed to)
+    made = {n for n, ds in Locals(pp.node).defs.items()
+            if any(k == "assign" and ((isinstance(v, ast.Dict) and not v.keys) or (isinstance(v, ast.Call) and norm(v.func) == "dict" and not v.args and not v.keywords))
+                   for k, _st, v in ds)}
+
+    def mapping_names(g: Any) -> "set[str]":
+        if inside(g):
+            return set(made)
+        out: set[str] = set()
+        for h, c in calls_to(g):
+            for prm, a in _bound_args(g, c).items():
+                if isinstance(a, ast.Name) and a.id in mapping_names(h):
+                    out.add(prm)
+        return out
+
+    def sources(e: ast.AST, g: Any, depth: int = 0) -> "set[str]":
+        """names the iterable e is drawn from (through locals bound to views / copies of it)"""
+        out = names_in(e)
+        if depth < 2:
+            lc = Locals(g.node)
+            for n in list(out):
+                for v in lc.values_of(n):
+                    out |= sources(v, g, depth + 1)
+        return out
+
+    def compares(g: Any, nodes_: "list[ast.AST]", prop: str, depth: int = 1) -> bool:
+        """among the nodes: a comparison of `<prop>.python_name` with another object's `.python_name` - or the call of a function of
+        the region that makes one for the parameter prop is handed to"""
+        for n in nodes_:
+            for x in ast.walk(n):
+                if isinstance(x, ast.Compare):
+                    ids = [a for a in ast.walk(x) if isinstance(a, ast.Attribute) and a.attr == "python_name"]
+                    if len(ids) >= 2 and any(isinstance(a.value, ast.Name) and a.value.id == prop for a in ids) \
+                            and any(not (isinstance(a.value, ast.Name) and a.value.id == prop) for a in ids):
+                        return True
+                if isinstance(x, ast.Call) and depth > 0:
+                    for h in funcs:
+                        if h is not g and norm(x.func).rsplit(".", 1)[-1] == h.name:
+                            for prm, a in _bound_args(h, x).items():
+                                if isinstance(a, ast.Name) and a.id == prop and compares(h, [h.node], prm, depth - 1):
+                                    return True
+        return False
+
+    def names_in(e: "ast.AST | None") -> "set[str]":
+        return {n.id for n in ast.walk(e) if isinstance(n, ast.Name)} if e is not None else set()
+
+    def checks(g: Any, prop: str, depth: int = 1) -> "list[ast.stmt]":
+        """the statements of g after which prop's identifier has been compared with that of everything the mapping holds"""
+        out: list[ast.stmt] = []
+        mp_ = mapping_names(g)
+        for n in _own(g.node):
+            if isinstance(n, (ast.For, ast.AsyncFor)) and sources(n.iter, g) & mp_ and compares(g, list(n.body), prop):
+                out.append(n)
+            elif isinstance(n, (ast.ListComp, ast.SetComp, ast.GeneratorExp, ast.DictComp)) and \
+                    any(sources(c.iter, g) & mp_ for c in n.generators) and compares(g, [n], prop):
+                st = stmt_of(g.node, n)
+                if st is not None:
+                    out.append(st)
+            elif isinstance(n, ast.Call) and depth > 0:
+                for h in funcs:
+                    if h is g or norm(n.func).rsplit(".", 1)[-1] != h.name:
+                        continue
+                    for prm, a in _bound_args(h, n).items():
+                        if isinstance(a, ast.Name) and a.id == prop and checks(h, prm, depth - 1):
+                            st = stmt_of(g.node, n)
+                            if st is not None:
+                                out.append(st)
+        return out
+
+    def unchecked(g: Any, at: ast.stmt, prop: "str | None", depth: int = 1) -> "list[tuple[Any, ast.stmt]]":
+        if prop is None:
+            return [(g, at)]
+        cfg = cfg_of(g, cfgs)
+        if any(c is not at and cfg.is_dominated_by(at, lambda n, c=c: n is c) for c in checks(g, prop)):
+            return []
+        # the property comes in as a parameter and nothing rebinds it: compared before each call of this function
+        sites = calls_to(g)
+        if depth > 0 and g is not pp and prop in _params(g) and prop not in local_names(g.node) and sites:
+            bad: list[tuple[Any, ast.stmt]] = []
+            for h, c in sites:
+                a = _bound_args(g, c).get(prop)
+                st = stmt_of(h.node, c)
+                bad += unchecked(h, st, a.id if isinstance(a, ast.Name) else None, depth - 1) if st is not None else [(h, c)]  # type: ignore[list-item]
+            return bad
+        return [(g, at)]
+
+    n = 0
+    for g in funcs:
+        mp_ = mapping_names(g)
+        if not mp_:
+            continue
+        for st in _own(g.node):
+            val: "ast.AST | None" = None
+            key: "ast.AST | None" = None
+            if isinstance(st, (ast.Assign, ast.AnnAssign)) and getattr(st, "value", None) is not None:
+                tg = st.targets if isinstance(st, ast.Assign) else [st.target]
+                sub = next((t for t in tg if isinstance(t, ast.Subscript) and isinstance(t.value, ast.Name) and t.value.id in mp_), None)
+                if sub is not None:
+                    key, val = sub.slice, st.value
+            elif isinstance(st, ast.Expr) and isinstance(st.value, ast.Call) and isinstance(st.value.func, ast.Attribute) \
+                    and st.value.func.attr in ("setdefault", "update", "__setitem__") and isinstance(st.value.func.value, ast.Name) \
+                    and st.value.func.value.id in mp_ and st.value.args:
+                key, val = st.value.args[0], st.value.args[-1]
+            if val is None:
+                continue
+            n += 1
+            bad = unchecked(g, st, val.id if isinstance(val, ast.Name) else None)  # type: ignore[arg-type]
+            rep.check(not bad, rid, f"{short(g)}::identifier-compared-before-store[{anon(key, local_names(g.node)) if key is not None else ''}]",
+                      "a property is put into the mapping of the model's properties on a path on which the identifier of the stored object "
+                      "has not been compared with the identifiers of the properties held so far: a property whose definition is replaced "
+                      "(merged, inherited, rebuilt) can take the identifier of a sibling that differs only in spelling - the class then "
+                      "declares one attribute twice", where(*bad[0]) if bad else where(g, st),
+                      lhs=[f"{h.name}: {norm(x)[:70]}" for h, x in bad] or norm(st)[:70],
+                      rhs="dominated by a comparison of <stored>.python_name with the python_name of every property in the mapping")
+    return n
+
+
 # ---- R18.2: the reservation of the endpoint functions' own argument names -----------------------------------------------------
 class NameTest:
     """a comparison of a value made from a document name with a table of strings"""
@@ -863,6 +1033,10 @@ def run(rep: Report, ctx: Any) -> str:
     rep.rule("R18.5", "where the generated code formats a string that the generator prepared with the python names of the members of a "
                       "collection as keywords, some store to that string's attribute writes a value that depends on the `python_name` of "
                       "the members of the same collection (through locals, comprehensions, lambdas and helper functions of the module)")
+    rep.rule("R18.6", "every statement that puts a property into the mapping in which _process_properties (its closures and private helpers) "
+                      "collects the properties of a model is dominated by a comparison of the python_name of the very object stored with "
+                      "the python_name of each property the mapping holds (a loop or comprehension over the mapping - in the storing "
+                      "function, in a helper that is handed both, or before every call of the storing function)")
     reserved = ch.reserved_words(None)
     w = CanonWalker(ctx.jinja, type_idents(ix))
     w.inner_required = inner_properties_required(ix)
@@ -976,6 +1150,7 @@ def run(rep: Report, ctx: Any) -> str:
     rep.floor("wire_name_roots", n_raw, 3)
     rep.floor("overlapping_hole_classes", n_pairs, 59)
     rep.floor("prepared_format_strings", n_fmt, 1)
+    rep.floor("model_property_stores", identifier_uniqueness(rep, ctx, "R18.6"), 1)
     rep.indexed["skeleton_truncated_recursions"] = w.truncated
 
     # ---- R18.2 ---------------------------------------------------------------------------------------------------
